@@ -4,7 +4,7 @@ The real DocTest.run (whole try/except ladder), _post_run (incl. the
 verbose >= 2 rendering), failed_line_offset / failed_lineno, repr_failure with
 _alter_traceback_linenos, format_parts / format_part, GotWantException
 rendering and runner._run_examples are executed under the explorer on a
-SYMBOLIC FAULT SCHEDULE: which part fails, how (nine failure kinds), at which
+SYMBOLIC FAULT SCHEDULE: which part fails, how (ten failure kinds), at which
 line, through which frames (a helper defined at a symbolic line of an earlier
 part, a frame outside the doctest), how long every part is, the verbosity and
 on_error.  The data of a path are concrete; what the solver enumerates is the
@@ -17,9 +17,9 @@ from . import hrun
 PROPERTY = 'C09'
 LEVEL = 'fault_enumeration'      # the solver enumerates a schedule / skeleton; the data of a path are concrete (DESIGN.md section 4)
 KINDS = ['gotwant', 'exc_top', 'exc_helper', 'exc_external', 'compile_error', 'repr_raises', 'repr_raises_stdout',
-         'import_error', 'bad_directive']
+         'import_error', 'bad_directive', 'exc_with_want_under_ignore_want']
 BOUNDS = {
-    'quick': 'k=2 parts of 1..3 lines, failing part and line symbolic, 9 failure kinds, helper line 1..4, verbosity 0..3; runner: 2 doctests',
+    'quick': 'k=2 parts of 1..3 lines, failing part and line symbolic, 10 failure kinds, helper line 1..4, verbosity 0..3; runner: 2 doctests',
     'thorough': 'k=3 parts of 1..4 lines, helper line 1..6; runner: 3 doctests',
 }
 OUTSIDE = 'pytest INTERNALERROR rendering (pytest session machinery); real tracebacks of real exec (the frames are fabricated with the real file-name convention); coloured output'
@@ -33,7 +33,7 @@ def jobs(tier):
              'maxhelper': 4 if q else 6, 'splits': [2, 4, 6, 8], 'query_timeout_s': 60,
              'bounds': BOUNDS[tier]},
             {'ob': 'runner_continues', 'harness': 'runner', 'n': 2 if q else 3, 'splits': [2, 4, 6], 'query_timeout_s': 60,
-             'bounds': '%d doctests, each passing or failing in one of the nine ways' % (2 if q else 3)}]
+             'bounds': '%d doctests, each passing or failing in one of the ten ways' % (2 if q else 3)}]
 
 
 class Ext(Exception):
@@ -69,7 +69,7 @@ class Schedule:
         if d['fails']:
             d['f'] = int(SymInt(self.f))
             d['kind'] = KINDS[int(SymInt(self.kind))]
-            d['line'] = int(SymInt(self.line)) if d['kind'] in ('exc_top', 'exc_helper', 'exc_external', 'compile_error') else 1
+            d['line'] = int(SymInt(self.line)) if d['kind'] in ('exc_top', 'exc_helper', 'exc_external', 'compile_error', 'exc_with_want_under_ignore_want') else 1
             if d['kind'] == 'exc_helper':
                 d['hline'] = int(SymInt(self.hline))
         return d
@@ -103,8 +103,10 @@ def build_doctest(m, sched, d, idx_base=0, lineno=10, name='f'):
         exec_lines[-1] += ' #%d#' % idx
         dirs = []
         want = None
-        if kind in ('gotwant', 'repr_raises', 'repr_raises_stdout'):
+        if kind in ('gotwant', 'repr_raises', 'repr_raises_stdout', 'exc_with_want_under_ignore_want'):
             want = ['expected_%d' % idx]
+        if kind == 'exc_with_want_under_ignore_want':
+            dirs = [D.Directive('IGNORE_WANT', True, [], True)]
         if kind == 'bad_directive':
             dirs = [D.Directive('REQUIRES', True, ['badflag:x'], False)]
         p = m['doctest_part'].DoctestPart(exec_lines, want_lines=want, line_offset=off,
@@ -115,7 +117,7 @@ def build_doctest(m, sched, d, idx_base=0, lineno=10, name='f'):
         if fail_here:
             if kind == 'gotwant':
                 exp = {'type': 'GotWantException', 'offset': off + n}
-            elif kind in ('exc_top', 'exc_helper', 'exc_external'):
+            elif kind in ('exc_top', 'exc_helper', 'exc_external', 'exc_with_want_under_ignore_want'):
                 exp = {'type': 'HarnessExc' if kind != 'exc_external' else 'Ext', 'offset': off + d['line'] - 1}
             elif kind == 'compile_error':
                 exp = {'type': 'SyntaxError', 'offset': off + d['line'] - 1}
@@ -131,7 +133,7 @@ def build_doctest(m, sched, d, idx_base=0, lineno=10, name='f'):
             real_exec = exec
             if kind == 'gotwant':
                 E.cap.write('something else')
-            elif kind == 'exc_top':
+            elif kind in ('exc_top', 'exc_with_want_under_ignore_want'):
                 hrun.raise_in_doctest_frame(code, hrun.HarnessExc(idx), lineno=d['line'])
             elif kind == 'exc_helper':
                 g = {'__exc__': hrun.HarnessExc(idx)}
@@ -322,6 +324,10 @@ def _doc_for(d, K, modname_ok=True):
         elif kind == 'exc_top':
             body[d['line'] - 1] = "raise KeyError('boom%d')" % i
             marker = body[d['line'] - 1]
+        elif kind == 'exc_with_want_under_ignore_want':
+            body = ["raise KeyError('boom%d')  # xdoctest: +IGNORE_WANT" % i]
+            want = 'expected'
+            marker = body[0]
         elif kind == 'exc_external':
             body[d['line'] - 1] = "int('not a number %d')" % i
             marker = body[d['line'] - 1]
